@@ -18,6 +18,8 @@ import AnthemModel.Proofs.SubstBasic
 import AnthemModel.Model.External
 import AnthemModel.Model.TptpFmt
 import AnthemModel.Proofs.PanicFree
+import AnthemModel.Model.AspParse
+import AnthemModel.Model.FolParse
 namespace Anthem.C16
 
 theorem gterm_substPanics_false (t : GTerm) (v : Var) (s : GTerm) (hc : SortCompatible v s) :
@@ -108,5 +110,27 @@ theorem external_panic_only_overflow (t : ExternalTask) (fuel : Nat) (s : String
     (h : externalProblems t fuel = .panic s) :
     globalsPanic t.program = true ∨ ∃ PL, t.specification = .inl PL ∧ globalsPanic PL = true :=
   externalProblems_panic t fuel s h
+
+/-- **Repaired defect (numeral range).** A numeral or arity beyond the integer type used to pass the
+    grammar and panic in the tree builder (`ParseIntError` unwrap). Since the fix the parser refuses a text
+    the grammar accepts when one of its numbers does not fit (`parseProgramChecked` etc. model
+    `impl Parser for PestParser`; the outcome on such texts is compared with the implementation on every
+    run): a text whose tree has a numeral out of range is refused, and nothing else changes. -/
+theorem out_of_range_refused (text : String) (p : Asp.Program) (h : Asp.parseProgram text = some p) :
+    Asp.parseProgramChecked text = (if p.inRange then some p else none) := by
+  unfold Asp.parseProgramChecked
+  rw [h]
+
+/-- every numeral of a program the parser returns fits `isize`: the later stages never see another one -/
+theorem accepted_numerals_in_range (text : String) (p : Asp.Program) (h : Asp.parseProgramChecked text = some p) :
+    p.inRange = true := by
+  unfold Asp.parseProgramChecked at h
+  cases h0 : Asp.parseProgram text with
+  | none => simp [h0] at h
+  | some p0 =>
+    simp only [h0] at h
+    split at h
+    · rename_i hr; injection h with h; subst h; exact hr
+    · cases h
 
 end Anthem.C16
